@@ -22,6 +22,7 @@ SPEC = dict(
              hang_is_violation=True),
         dict(name="metrics", pkg="./lib/stat", run="^TestVerifC16MetricsRace$", race=True, timeout=300, timeout_thorough=1800,
              hang_is_violation=True),
+        dict(name="metrics-tick", pkg="./lib/stat", run="^TestVerifC16MetricsTickOnly$", race=True, timeout=300, timeout_thorough=1800),
         dict(name="fp-handoff", pkg="./lib/executors", run="^TestVerifC16(FpMix|Handoff)$", thorough_only=True, timeout_thorough=1500,
              hang_is_violation=True, env_thorough={"C16_FP": "handoff"},
              failpoints=[
